@@ -96,6 +96,13 @@ def e2e_item(c):
     return f
 
 
+def tail_classes(c):
+    """an alias that is also the name of a pattern binding projected LATER in the same SELECT"""
+    ps = c["extra"]["projs"]
+    return {"alias_shadows_later_projection"} if any(ps[i]["alias"] and ps[i]["alias"] == ps[j]["bind"] and ps[i]["bind"] != ps[j]["bind"]
+                                                     for i in range(len(ps)) for j in range(i + 1, len(ps))) else set()
+
+
 def tail_item(c):
     def f(t):
         ex, base, res = c["extra"], c["base"], c["res"]
@@ -221,6 +228,8 @@ def run(ctx):
         dist["tail:%s:%s:%d" % (c["shape"], c["res"]["outcome"], v)] += 1
         if c["base"]["outcome"] != "ok":
             ctx.violation({"kind": "base statement failed", "case": c})
+        elif v == 4:
+            excuse(c, tail_classes(c), "a projected column does not hold the value of its binding in the solution")
         elif v != 0:
             ctx.violation({"kind": "GROUP BY + ORDER BY + HAVING + LIMIT through the planner disagrees with Exec.execute_tail", "case": c})
     es = T.htable(["-mode", "e2esweep", "-n", 2 if ctx.tier == "thorough" else 1, "-seed", ctx.seed], timeout=1800)
